@@ -149,9 +149,9 @@ pub fn run(a: &Args) {
     }
     let mut r = Rep::new("C04", "indices");
     if a.shard == 0 {
-        codecs(&mut r);
+        guarded(&mut r, "C04|index/offset codecs|unexpected-panic", || "u16 sweep".into(), |r| codecs(r));
         for x in canon() {
-            check_addr(&mut r, x);
+            guarded(&mut r, "C04|index accessors|unexpected-panic", || format!("addr {:#x}", x), |r| check_addr(r, x));
         }
     }
     let others: [u64; 5] = [0, 1, 255, 256, 511];
@@ -178,7 +178,8 @@ pub fn run(a: &Args) {
                     let val = if g == 0 { oth_off[pick] } else { others[pick] };
                     raw |= val << shifts[g];
                 }
-                check_addr(&mut r, sext48(raw));
+                let x = sext48(raw);
+                guarded(&mut r, "C04|index accessors|unexpected-panic", || format!("addr {:#x}", x), |r| check_addr(r, x));
             }
         }
     }
